@@ -105,6 +105,10 @@ pub enum Rule {
     /// non-canonical bytes inside a list value under an unknown key
     PkUncompressed,
     InnerNonCanonList,
+    /// ed25519 only: the neutral element as public key with the signature (R = neutral, s = 0),
+    /// which non-strict verification accepts for every message. Outside C01/C02 (weak key), but
+    /// the ed25519 key type and CombinedKey must still agree on it (C11).
+    EdSmallOrder,
 }
 
 impl Rule {
@@ -268,6 +272,13 @@ pub fn emit(c: &Content, rule: &Rule, canon_sig: bool) -> Vec<u8> {
         Rule::InnerNonCanonList => {
             set(&mut sem, b"zlist", rlp::enc_list(&[0x81, 0x05, 0xb8, 0x01, 0x61]));
         }
+        Rule::EdSmallOrder => {
+            if c.kind == PkKind::Ed {
+                let mut neutral = [0u8; 32];
+                neutral[0] = 1;
+                sem.insert(pk_entry.clone(), rlp::enc_str(&neutral));
+            }
+        }
         Rule::OtherSchemeEntryOnly => {
             let v = sem.remove(&pk_entry).unwrap_or_default();
             let other = match c.kind {
@@ -326,6 +337,10 @@ pub fn emit(c: &Content, rule: &Rule, canon_sig: bool) -> Vec<u8> {
     let mut sig = ref_sign(c.kind, c.key_idx, &payload);
     if let Rule::SigLen(n) = rule {
         sig.resize(usize::from(*n), 0x01);
+    }
+    if *rule == Rule::EdSmallOrder && c.kind == PkKind::Ed {
+        sig = vec![0u8; 64];
+        sig[0] = 1;
     }
 
     // wire items
@@ -457,6 +472,11 @@ pub enum Tamper {
     SigSGeN,
     EdSPlusL,
     SigBitFlip(u16),
+    /// the same (r, s) as an ASN.1 DER signature (70-72 bytes) instead of 64 raw bytes
+    SigDer,
+    /// an extra, unsigned (key, other value) pair spliced in right before the genuine pair of the
+    /// same key: a decoder that lets the last occurrence win would verify the original content
+    ShadowPair(u8),
 }
 
 impl Tamper {
@@ -599,6 +619,41 @@ pub fn tamper(f: &Fields, t: &Tamper) -> Option<Vec<u8>> {
                 return None;
             }
             sig = rc::ed_s_plus_l(&sig)?;
+        }
+        Tamper::ShadowPair(i) => {
+            if pairs.is_empty() {
+                return None;
+            }
+            let i = usize::from(*i) % pairs.len();
+            let mut shadow = pairs[i].clone();
+            shadow.1 = match shadow.0.as_slice() {
+                b"ip" => rlp::enc_str(&[198, 51, 100, 9]),
+                b"ip6" => rlp::enc_str(&[0x3b; 16]),
+                b"tcp" | b"tcp6" | b"udp" | b"udp6" => rlp::enc_uint(31337),
+                b"id" => rlp::enc_str(b"v4"),
+                _ => rlp::enc_str(b"shadow"),
+            };
+            pairs.insert(i, shadow);
+        }
+        Tamper::SigDer => {
+            if f.pk_kind != PkKind::Secp || sig.len() != 64 {
+                return None;
+            }
+            let int = |x: &[u8]| -> Vec<u8> {
+                let skip = x.iter().take_while(|b| **b == 0).count().min(x.len() - 1);
+                let mut v = x[skip..].to_vec();
+                if v[0] & 0x80 != 0 {
+                    v.insert(0, 0);
+                }
+                let mut out = vec![0x02, v.len() as u8];
+                out.extend_from_slice(&v);
+                out
+            };
+            let mut body = int(&sig[..32]);
+            body.extend_from_slice(&int(&sig[32..]));
+            let mut der = vec![0x30, body.len() as u8];
+            der.extend_from_slice(&body);
+            sig = der;
         }
         Tamper::SigBitFlip(b) => {
             if sig.is_empty() {
